@@ -1327,7 +1327,7 @@ func runFaults(c *engine.Ctx) engine.Result {
 			continue
 		}
 		for p := 1; p <= g.n; p++ {
-			for _, k := range append(append([]string{}, recstore.FaultKinds...), recstore.FaultDuplicate) {
+			for _, k := range append(append([]string{}, recstore.FaultKinds...), recstore.FaultDuplicate, recstore.FaultTemporary) {
 				cs := g.cs
 				cs.Pos, cs.Kind = p, k
 				cases = append(cases, cs)
@@ -1370,7 +1370,7 @@ func runFaults(c *engine.Ctx) engine.Result {
 			continue
 		}
 		for p2 := cs.Pos + 1; p2 <= counts[i]; p2++ {
-			for _, k2 := range append(append([]string{}, recstore.FaultKinds...), recstore.FaultDuplicate) {
+			for _, k2 := range append(append([]string{}, recstore.FaultKinds...), recstore.FaultDuplicate, recstore.FaultTemporary) {
 				c2 := cs
 				c2.Pos2, c2.Kind2 = p2, k2
 				second = append(second, c2)
